@@ -1,2 +1,72 @@
-import NSG.Model.Coord
-/-! # C10 (theorems under construction) -/
+import NSG.Properties.C07
+import NSG.Properties.C05
+/-! # C10 — an agent may leave at any moment without harming the others -/
+namespace NSG.Coord
+open NSG NSG.Defender
+
+/-- the two ways a departure reaches the coordinator: an explicit QuitGame message, or the QuitGame
+the connection handler sends on the agent's behalf (EOF, read error, failed write) -/
+def isDeparture (c : Nat) : Ev → Prop
+  | .msg c' .quit _ => c' = c
+  | .leave c' _ => c' = c
+  | _ => False
+
+theorem removeAgent_ids (s : St) (c : Nat) : c ∉ (removeAgent s c).1.ids ∨ s.inGame c = false := by
+  unfold removeAgent
+  split
+  · left; simp [List.mem_filter]
+  · right; rename_i h; simpa using h
+
+/-- **Forgotten.** After a departure of a connection that was being served (reading, or dead after a
+failed write): its record is gone from every table, its connection is closed, its slot is returned. -/
+theorem C10_forgotten (S : Settings) (s : St) (c : Nat) (e : Ev) (hd : isDeparture c e)
+    (hc : s.conn c = .reading ∨ (s.conn c = .dead ∧ ∃ o, e = .leave c o)) :
+    (deliver S s e).1.agents c = none := by
+  cases e with
+  | msg c' m o =>
+    cases m <;> simp only [isDeparture] at hd
+    subst hd
+    rcases hc with hc | ⟨_, o', ho'⟩
+    · simp only [deliver, hc, handle]; exact leave_gone S s c' o
+    · cases ho'
+  | leave c' o =>
+    simp only [isDeparture] at hd; subst hd
+    rcases hc with hc | ⟨hc, _⟩ <;> (simp only [deliver, hc]; exact leave_gone S s c' o)
+  | connect _ => exact absurd hd (by simp [isDeparture])
+  | armWriteFault _ => exact absurd hd (by simp [isDeparture])
+
+/-- **Frame.** For every other agent a departure is a sequence of background steps only: its view and
+step counter are untouched unless it had itself asked for a reset; a reward that was already
+assigned (bonus paid) stays exactly as it was. -/
+theorem C10_paid_stays (S : Settings) (a b : Agent) (hs : BStep S a b) (hr : a.resetReq = false) (hp : a.paid = true) :
+    b.reward = a.reward ∧ b.paid = true := by
+  induction hs with
+  | refl a => exact ⟨rfl, hp⟩
+  | pay a sa => rw [C05_once S sa a hp]; exact ⟨rfl, hp⟩
+  | record a act => exact ⟨rfl, hp⟩
+  | reset a v hq => rw [hr] at hq; cases hq
+  | restart a => exact ⟨rfl, hp⟩
+  | trans h1 _ ih1 ih2 =>
+    obtain ⟨g1, g2⟩ := ih1 hr hp
+    obtain ⟨_, _, _, g4, _, _⟩ := C07_frame_bstep S _ _ h1 hr
+    obtain ⟨k1, k2⟩ := ih2 g4 g2
+    exact ⟨k1.trans g1, k2⟩
+
+theorem C10_frame (S : Settings) (s : St) (c d : Nat) (e : Ev) (hd : isDeparture c e) (hne : d ≠ c)
+    (a a' : Agent) (ha : s.agents d = some a) (hr : a.resetReq = false)
+    (ha' : (deliver S s e).1.agents d = some a') :
+    a'.view = a.view ∧ a'.steps = a.steps ∧ a'.ended = a.ended ∧ (a.paid = true → a'.reward = a.reward) := by
+  have hs : sender e ≠ some d := by
+    cases e with
+    | msg c' m o => cases m <;> simp only [isDeparture] at hd; subst hd; simp [sender]; exact fun h => hne h.symm
+    | leave c' o => simp [sender]
+    | connect _ => simp [sender]
+    | armWriteFault _ => simp [sender]
+  rcases deliver_trace S s e d a' ha' with ⟨a0, ha0, hb⟩ | ⟨h, _⟩ | ⟨h, _⟩
+  · rw [ha] at ha0; cases ha0
+    obtain ⟨h1, h2, h3, _, _, _⟩ := C07_frame_bstep S a a' hb hr
+    exact ⟨h1, h2, h3, fun hp => (C10_paid_stays S a a' hb hr hp).1⟩
+  · exact absurd h hs
+  · exact absurd h hs
+
+end NSG.Coord
